@@ -209,7 +209,11 @@ class G:
             v = r.choice(free)
             it = self.iterable(d - 1)
             self.loop_vars.append((v, "int"))
-            ifs = [self.bool_(d - 1)] if r.random() < 0.3 else []
+            # 0-2 filters; a later filter may only be defined where an earlier one holds
+            nifs = r.choice([0, 0, 0, 1, 1, 2])
+            ifs = [self.bool_(d - 1) for _ in range(nifs)]
+            if nifs == 2 and r.random() < 0.5:
+                ifs = [["cmp", ["name", v], [["!=", ["const", 0]]]], ["cmp", ["call", ["name", "inv"], [["name", v]], []], [["<", self.int_(0)]]]]
             gens.append([[v], False, it, ifs])
         return gens
 
@@ -530,6 +534,10 @@ def directed():
         ("all-in-int", ["cmp", ["bin", "+", call("int", call("all", gen_v(["cmp", N("v"), [[">", K(0)]]], N("xs")))), N("n")], [[">", K(1)]]],
          {"xs": [1, -1], "n": 0}, {}),
         ("all-compared", ["cmp", call("all", gen_v(["cmp", N("v"), [[">", K(0)]]], N("xs"))), [["==", N("flag")]]], {"xs": [1, -1], "flag": True}, {}),
+        # two filters on one clause, the second only defined where the first holds
+        ("all-two-filters", call("all", gen_v(["cmp", N("v"), [[">", K(5)]]], N("xs"),
+                                         ifs=[["cmp", N("v"), [["!=", K(0)]]], ["cmp", call("inv", N("v")), [["<", K(500)]]]])),
+         {"xs": [0, 1, 7]}, {}),
         ("not-any", ["un", "not", call("any", gen_v(["cmp", N("v"), [["<", K(0)]]], N("xs")))], {"xs": [1, -1]}, {}),
         # a loop variable with the name of an outer variable
         ("loop-shadows-global", call("all", ["comp", "gen", ["cmp", N("x"), [[">", K(0)]]], None, [[["x"], False, N("xs"), []]]]),
